@@ -223,9 +223,29 @@ def _vrepr(v):
     return v if isinstance(v, str) else "!" + re.sub(r" at 0x[0-9a-fA-F]+", "", repr(v))
 
 
+def _canon_attr(fam, v, _d=0):
+    if _d > 4:
+        return "..."
+    if isinstance(v, (set, frozenset)):
+        return "{" + ",".join(sorted(_canon_attr(fam, x, _d + 1) for x in v)) + "}"
+    if isinstance(v, (list, tuple)):
+        return "[" + ",".join(_canon_attr(fam, x, _d + 1) for x in v) + "]"
+    if isinstance(v, dict):
+        return "{" + ",".join(sorted(_canon_attr(fam, k, _d + 1) + ":" + _canon_attr(fam, x, _d + 1) for k, x in v.items())) + "}"
+    try:
+        return fam.label(v)
+    except Exception:  # noqa: BLE001
+        return _vrepr(v)
+
+
 def snap(fam, c):
-    """Canonical dict contents: stored keys and memoised alias keys as sorted (label, value) pairs."""
-    return tuple(sorted((fam.label(k), _vrepr(v)) for k, v in dict.items(c)))
+    """Canonical state of the context: stored keys and memoised alias keys as sorted (label, value) pairs, plus - should the
+    implementation keep any - the instance attributes (state outside the mapping must not be merged away by the abstraction)."""
+    base = tuple(sorted((fam.label(k), _vrepr(v)) for k, v in dict.items(c)))
+    extra = getattr(c, "__dict__", None)
+    if extra:
+        base += tuple(sorted(("@" + str(n), _canon_attr(fam, v)) for n, v in extra.items()))
+    return base
 
 
 def stored_of(hist):
